@@ -32,6 +32,10 @@ flush()
 # trailing empty context lines from the split
 for e in edits:
     e["old"] = e["old"].rstrip("\n"); e["new"] = e["new"].rstrip("\n")
+    if not os.path.exists("/repo/" + e["file"]):
+        if e["old"]:
+            print("WARNING: file", e["file"], "missing")
+        continue  # a file the change adds
     src = open("/repo/" + e["file"]).read()
     if src.count(e["old"]) == 0:
         print("WARNING: hunk of", e["file"], "does not occur")
